@@ -32,6 +32,7 @@
 #include <chrono>
 #include <condition_variable>
 #include <cstdlib>
+#include <cstring>
 #include <deque>
 #include <functional>
 #include <future>
@@ -60,6 +61,26 @@ namespace
 
     i64      us(DateTime t) { return t.time_since_epoch().count(); }
     DateTime dt(i64 v) { return DateTime{TimeDelta{v}}; }
+
+    // ------------------------------------------------------------------ where a worker's send call has got to
+    // 0 not started, 1 about to call the sender, 2 past the sender control's stop check, right before the
+    // policy's admission critical section (sync point pushq.*.before_admit of hooks/pushq.patch).  Mode 1
+    // may only record a sender as "blocked" once it is known to be past the stop check: a worker that was
+    // merely slow to start would otherwise see a later request_stop and return false (load-dependent).
+    thread_local std::atomic<int> *tl_progress = nullptr;
+#ifdef HGRAPH_VERIF_PUSHQ_POINTS
+    constexpr int PARKED_PROGRESS = 2;
+    void sync_cb(const char *name, void *)
+    {
+        if (tl_progress == nullptr) { return; }
+        if (std::strcmp(name, "pushq.send_blocking.before_admit") == 0 || std::strcmp(name, "pushq.try_send.before_admit") == 0)
+        {
+            tl_progress->store(2, std::memory_order_release);
+        }
+    }
+#else
+    constexpr int PARKED_PROGRESS = 1;  // best effort without the sync points
+#endif
 
     // ------------------------------------------------------------------ a worker thread per producer
     class Worker
@@ -290,20 +311,45 @@ namespace
                 else
                 {
                     if (!workers[p]) { workers[p] = std::make_unique<Worker>(); }
-                    auto       fut        = workers[p]->submit([s, v, blocking] { return do_send(s, v, blocking); });
-                    const bool may_block  = would_block(blocking, h);
-                    const auto wait       = may_block ? std::chrono::milliseconds{25} : std::chrono::seconds{STALL_S};
-                    if (fut.wait_for(wait) == std::future_status::ready) { r = fut.get(); }
+                    auto progress = std::make_shared<std::atomic<int>>(0);
+                    auto fut      = workers[p]->submit([s, v, blocking, progress] {
+                        tl_progress = progress.get();
+                        progress->store(1, std::memory_order_release);
+                        const i64 res = do_send(s, v, blocking);
+                        tl_progress = nullptr;
+                        return res;
+                    });
+                    const bool may_block = would_block(blocking, h);
+                    if (!may_block)
+                    {
+                        if (fut.wait_for(std::chrono::seconds{STALL_S}) == std::future_status::ready) { r = fut.get(); }
+                        else { r = 3; }
+                    }
                     else
                     {
-                        r            = 3;
+                        // it has to park: give it 25 ms AFTER it is known to be past the stop check
+                        const auto t_begin = std::chrono::steady_clock::now();
+                        std::optional<std::chrono::steady_clock::time_point> t_parked;
+                        r = 3;
+                        for (;;)
+                        {
+                            if (fut.wait_for(std::chrono::milliseconds{1}) == std::future_status::ready) { r = fut.get(); break; }
+                            const auto t = std::chrono::steady_clock::now();
+                            if (!t_parked && progress->load(std::memory_order_acquire) >= PARKED_PROGRESS) { t_parked = t; }
+                            if (t_parked && t - *t_parked > std::chrono::milliseconds{25}) { break; }
+                            if (t - t_begin > std::chrono::seconds{STALL_S}) { break; }
+                        }
+                    }
+                    if (r == 3)
+                    {
                         blocked      = std::move(fut);
                         blocked_idx  = idx;
                         blocked_prod = p;
                     }
                 }
                 out.line({code, idx, r, started ? pending_items(w) : 0, flag(w)});
-                if (r != 3) { settle_blocked(room()); }
+                // a send frees no slot: the parked sender (if any) must stay parked
+                if (r != 3) { settle_blocked(!started); }
             }
             else if (code == 3)
             {
@@ -317,23 +363,27 @@ namespace
                     err = 1;
                     std::fprintf(stderr, "evaluate: %s\n", e.what());
                 }
-                settle_blocked(room());
                 {
                     // the delivery of this cycle, read off the push source's own output (a graph
                     // that was stopped has its edges torn down, so a sink would see nothing after
                     // a restart; restart is "not supported by design", see graph.cpp start_impl)
                     auto o = graph.node_at(0).output(dt(now));
+                    std::optional<Line> d;
                     if (o.valid() && o.last_modified_time() == dt(now))
                     {
-                        Line d{5, now - t0};
+                        d = Line{5, now - t0};
                         if (w.policy == 1)
                         {
                             auto list = o.value().as_list();
-                            for (std::size_t i = 0; i < list.size(); ++i) { d.push_back(list[i].checked_as<Int>()); }
+                            for (std::size_t i = 0; i < list.size(); ++i) { d->push_back(list[i].checked_as<Int>()); }
                         }
-                        else { d.push_back(o.value().checked_as<Int>()); }
-                        out.line(d);
+                        else { d->push_back(o.value().checked_as<Int>()); }
                     }
+                    // a delivery freed a slot and notified: the parked sender completes now; otherwise it
+                    // stays parked (decided from the delivery, which only this thread writes - not from a
+                    // pending_items reading that races with the woken sender)
+                    settle_blocked(d.has_value());
+                    if (d) { out.line(*d); }
                 }
                 out.line({3, idx, err, w.source_evals.load() - se0, pending_items(w), flag(w)});
             }
@@ -616,6 +666,9 @@ int main(int argc, char **argv)
 {
     if (argc < 2) { std::fprintf(stderr, "usage: pushq_driver <batch>\n"); return 2; }
     setenv("HGRAPH_VERIF", "1", 1);   // enables the wall-clock provider of verif_hook.h (installed per case)
+#ifdef HGRAPH_VERIF_PUSHQ_POINTS
+    verif::hooks().sync_point.store(&sync_cb, std::memory_order_release);
+#endif
     auto     batch = hgv::read_batch(argv[1]);
     hgv::Out out;
     for (const auto &c : batch)
